@@ -55,6 +55,18 @@ def handle (args : List String) : String :=
     | some a, some ops =>
       (evalChain implLib a ops).render Val.render ++ "\t" ++ (evalChain specLib a ops).render Val.render
     | _, _ => "bad-op"
+  | "calls!" :: name :: rest =>
+    -- `[result or "T" if it raised, number of calls of the function argument]`
+    match parseArgs rest with
+    | some [.v sq, .f fn] =>
+      let show1 (r : Out Val) (n : Nat) : String :=
+        match r with
+        | .ok v => "ok [" ++ v.render ++ "," ++ toString n ++ "]"
+        | .throw => "ok [s:54," ++ toString n ++ "]"
+        | .panic => "panic"
+      show1 (call implLib name [.v sq, .f fn]) (callsImpl name sq fn) ++ "\t" ++
+        show1 (call specLib name [.v sq, .f fn]) (callsSpec name sq fn)
+    | _ => "bad-op"
   | "sorted!" :: name :: rest =>
     match parseArgs rest with
     | some as => (call implLib name as).render renderSorted ++ "\t" ++ (call specLib name as).render renderSorted
